@@ -10,14 +10,14 @@ from vlib import ToolError, replay_behaviours, write_ndjson, read_ndjson
 SPEC = "crypto"
 
 
-def parallel_replay(ctx, subcmd, rows, name, parts=8, extra_args=None):
+def parallel_replay(ctx, subcmd, rows, name, parts=8, extra_args=None, classify=None):
     """Split the rows over several harness processes; merges the action histograms."""
     rows = list(rows)
-    n = max(1, min(parts, len(rows) // (4 if subcmd == "c12-replay" else 50) or 1))
+    n = max(1, min(parts, len(rows) // (4 if subcmd in ("c12-replay", "c11-replay", "c08-replay", "c18-replay") else 50) or 1))
     chunks = [rows[i::n] for i in range(n)]
     def one(iv):
         i, part = iv
-        return replay_behaviours(ctx, "base", subcmd, part, "%s_%d" % (name, i), extra_args=extra_args)
+        return replay_behaviours(ctx, "base", subcmd, part, "%s_%d" % (name, i), extra_args=extra_args, classify=classify)
     with ThreadPoolExecutor(max_workers=n) as ex:
         outs = list(ex.map(one, enumerate(chunks)))
     hist = {}
@@ -69,10 +69,20 @@ def run_c20(ctx):
         if quick and len(d["vec"]) == 2 and i % 2 == 1:
             continue
         rows.append(d)
+    import re
+    for line in open(os.path.join(ctx.work, "tlc_MultiExp.out")):
+        m = re.match(r'^<<"ROWS", (".*")>>', line.strip())
+        if m:
+            rows += json.loads(json.loads(m.group(1)))
     # 3. secret sharing
     ctx.tlc(SPEC, "Shamir.tla", "Shamir.cfg" if quick else "Shamir_big.cfg", workers=8, timeout=3000)
     sh = ctx.tlc(SPEC, "Shamir.tla", "Shamir_export.cfg", workers=4, timeout=900)
     rows += [json.loads(s) for s in sh.replays]
+    for line in open(os.path.join(ctx.work, "tlc_Shamir_export.out")):
+        m = re.match(r'^<<"ROWS", (".*")>>', line.strip())
+        if m:
+            rows += json.loads(json.loads(m.group(1)))
+            break
     # 4. encodings, 5. key derivation
     pe = ctx.tlc(SPEC, "PointEnc.tla", "PointEnc.cfg", workers=4, timeout=900)
     for s in pe.replays:
@@ -84,7 +94,7 @@ def run_c20(ctx):
     ctx.exhaustive = True
     hist, bad = parallel_replay(ctx, "c20-replay", [json.dumps(r) for r in rows], "c20", parts=12)
     ctx.extra["row_histogram"] = hist
-    need = {"wnaf": 400, "multiexp": 1000, "shamir:secret": 300, "shamir:unrelated": 300, "bls:accept": 10, "bls:reject": 100,
+    need = {"wnaf": 400, "multiexp": 1000, "vec_commit": 100, "threshold": 10, "shamir:secret": 300, "shamir:unrelated": 300, "bls:accept": 10, "bls:reject": 100,
             "ristretto:reject": 10, "scalar:reject": 8, "hash": 50, "hdpath:ok": 1000, "hdpath:err": 300}
     for k, v in need.items():
         if hist.get(k, 0) < v:
@@ -128,7 +138,7 @@ def run_c19(ctx):
     ctx.extra["row_histogram"] = hist
     need = {"bls_agg": 200, "verify_aggregate_sig:true": 50, "verify_aggregate_sig:false": 1000, "verify_aggregate_sig_hybrid:true": 100,
             "verify_aggregate_sig_trusted_keys:true": 30, "verify:true": 5, "bls_pop:true": 4, "bls_pop:false": 50, "dlog_ed25519:true": 4,
-            "vrf:true": 4, "vrf:false": 100, "vrf_flip": 20, "ps_sig:true": 100, "ps_sig:false": 1000}
+            "vrf:true": 4, "vrf:false": 100, "vrf_flip": 20, "vrf_key:false": 8, "vrf_key:true": 1, "dlog_ed25519_enc:false": 3, "dlog_ed25519_enc:true": 1, "ps_sig:true": 100, "ps_sig:false": 1000}
     for k, v in need.items():
         if hist.get(k, 0) < v:
             raise ToolError("vacuous C19 run: %s = %s (< %s)" % (k, hist.get(k, 0), v))
@@ -266,7 +276,100 @@ def run_c07(ctx):
                         "soundness and zero-knowledge are cryptographic statements outside TLC: the model shows the equations over small fields, the replay shows the code accepts / rejects on the enumerated classes"]
 
 
-RUNNERS = {"C20": run_c20, "C19": run_c19, "C12": run_c12, "C07": run_c07}
+def _row_check(ctx, subcmd, rows, name, need, parts=14, classify=None):
+    for i, r in enumerate(rows):
+        r["idx"] = i
+    hist, bad = parallel_replay(ctx, subcmd, [json.dumps(r) for r in rows], name, parts=parts, classify=classify)
+    ctx.extra["row_histogram"] = hist
+    for k, v in need.items():
+        got = sum(n for kk, n in hist.items() if kk == k or kk.startswith(k))
+        if got < v:
+            raise ToolError("vacuous %s run: %s = %s (< %s)" % (ctx.prop, k, got, v))
+    return hist
+
+
+def _canary(ctx, subcmd, row):
+    inp = os.path.join(ctx.work, "canary.ndjson")
+    outp = os.path.join(ctx.work, "canary.res")
+    write_ndjson(inp, [row])
+    ctx.harness("base", [subcmd, inp, outp])
+    if not [x for x in read_ndjson(outp) if not x.get("summary")]:
+        raise ToolError("canary: altered expectation not flagged")
+
+
+def run_c11(ctx):
+    quick = ctx.tier == "quick"
+    r = ctx.tlc(SPEC, "RangeStmt.tla", "RangeStmt.cfg", workers=4, timeout=900)
+    rows = [json.loads(x) for x in r.replays]
+    ctx.exhaustive = True
+    if quick:
+        rows = [x for i, x in enumerate(rows) if x["row"]["perturb"] != "none" or x["accept"] or i % 2 == 0]
+    _row_check(ctx, "c11-replay", rows, "c11", {"range:accept": 20, "range:false": 20, "range:perturbed": 8, "leq:accept": 10, "leq:false": 10, "interval:accept": 5, "interval:false": 10,
+                                                  "in_set:accept": 5, "in_set:false": 5, "not_in_set:accept": 5, "not_in_set:false": 5}, parts=14)
+    c = json.loads(json.dumps(next(x for x in rows if x["row"]["kind"] == "leq" and x["accept"])))
+    c["accept"] = False
+    _canary(ctx, "c11-replay", c)
+    ctx.extra["canary"] = "flipped verdict of a true less-or-equal statement flagged"
+    ctx.rule = ("RangeStmt.tla: range statements for n in {1,2,8,16,32,64} over 11 boundary values (0 .. 2^64-1), batches of 1 / 2 / 4 values, sizes the inner-product argument does not support "
+                "(n*m not a power of two), less-or-equal for n in {8, 64}, intervals [a, b), set membership and non-membership for sets of 1..8 elements, each with the perturbations "
+                "{commitment, n, transcript, generators, key, proof bytes, swapped commitments, bounds, set}; both proof versions; distinct = distinct rows")
+    ctx.assumptions += ["no claim about adversarial provers beyond calling the real prover with false statements (whatever it outputs must not verify)"]
+
+
+def run_c08(ctx):
+    quick = ctx.tier == "quick"
+    r = ctx.tlc(SPEC, "IdIssuance.tla", "IdIssuance.cfg" if quick else "IdIssuance_big.cfg", workers=8, timeout=3000)
+    rows = [json.loads(x) for x in r.replays]
+    ctx.exhaustive = True
+    rows = [x for x in rows if len(x["ops"]) >= 2]
+    if quick:
+        rows = [x for i, x in enumerate(rows) if len(x["ops"]) == 2 or i % 2 == 0]
+    else:
+        rows = [x for i, x in enumerate(rows) if i % 6 == 0]
+    _row_check(ctx, "c08-replay", rows, "c08", {"request:v0": 50, "request:v1": 50, "create:true": 100, "create:false": 20, "verify:none": 20, "verify:bitflips": 20, "bitflip": 200,
+                                                 "verify:other_ip": 10, "verify:other_ar_key": 10, "verify:swap_ar_data": 4, "revoke:true": 20, "revoke:false": 5}, parts=14)
+    c = json.loads(json.dumps(next(x for x in rows if x["ops"][-1]["op"] == "revoke" and x["ops"][-1]["ok"] and x["ops"][1]["ok"])))
+    c["ops"][-1]["ok"] = False
+    _canary(ctx, "c08-replay", c)
+    ctx.extra["canary"] = "flipped revocation verdict flagged"
+    ctx.rule = ("IdIssuance.tla: every transition of the graph request(version, chosen revokers, threshold) -> create(counter in {0, 1, max, max+1}, revealed subset, new / existing account) -> "
+                "verify(perturbation) | revoke(subset) for N revokers (2 quick, 3 thorough; sampled); each behaviour replayed end to end with fresh holder secrets: identity request accepted by the "
+                "provider (v0 incl. the initial account credential on chain), credential creation iff counter <= max_accounts, chain verification iff unperturbed (ten single-bit flips of the "
+                "encoding per behaviour at varying positions, other provider / revoker key / global context / address / expiry, swapped revoker data), reconstruction of the public identity credential "
+                "iff at least threshold revokers decrypt; distinct = distinct behaviours")
+    ctx.assumptions += ["attribute lists have two attributes; the PRF-key reconstruction (reveal_prf_key) is not exercised; identity provider and revoker keys are fixed seeded keys"]
+
+
+def run_c18(ctx):
+    quick = ctx.tier == "quick"
+    r = ctx.tlc(SPEC, "Statements.tla", "Statements.cfg", workers=4, timeout=900)
+    rows = [json.loads(x) for x in r.replays]
+    ctx.exhaustive = True
+    if quick:
+        rows = [x for i, x in enumerate(rows) if x["perturb"] != "none" and i % 3 == 0 or x["perturb"] == "none" and i % 5 == 0
+                or (x["perturb"] in ("challenge", "credential") and x["stmt"][0]["k"] == "in_range" and i % 2 == 0)]
+    def classify(rec, beh):
+        # R1: Version1 (even row index) range-only statements are not bound to challenge / credential
+        b = json.loads(beh) if isinstance(beh, str) else beh
+        if (b["idx"] % 2 == 0 and b["perturb"] in ("challenge", "credential") and all(a["k"] == "in_range" for a in b["stmt"])
+                and rec.get("exp") is False and rec.get("got") is True):
+            return "v1-range-proof-unbound"
+        return None
+    _row_check(ctx, "c18-replay", rows, "c18", classify=classify, need={"reveal:accept": 2, "in_range:accept": 5, "in_range:false": 10, "in_set:accept": 4, "in_set:false": 10, "not_in_set:accept": 10,
+                                                 "not_in_set:false": 4, "in_range:perturbed": 10, "in_set:perturbed": 5}, parts=14)
+    c = json.loads(json.dumps(next(x for x in rows if x["accept"] and x["stmt"][0]["k"] == "in_range")))
+    c["accept"] = False
+    c["truth"] = False
+    _canary(ctx, "c18-replay", c)
+    ctx.extra["canary"] = "flipped verdict of a true range statement flagged"
+    ctx.rule = ("Statements.tla: attribute lists over 12 ordered values (length-then-lexicographic order of the field encoding), statements of one atom (reveal, range with every lower / upper "
+                "combination around the value, membership and non-membership in sets of 1..5 values) and of two atoms about different attributes, perturbations {challenge, credential, commitments, "
+                "statement, proof bytes, proof version}; both proof versions; distinct = distinct rows")
+    ctx.assumptions += ["verifiable presentations over web3 / identity credentials (web3id, v1 anchors) and the holder's linking signatures are not bound: only statements about account-credential commitments are",
+                        "commitments are built from the attribute values directly (the commitments of a deployed credential are the same Pedersen commitments)"]
+
+
+RUNNERS = {"C20": run_c20, "C19": run_c19, "C12": run_c12, "C07": run_c07, "C11": run_c11, "C08": run_c08, "C18": run_c18}
 
 
 def run(ctx):
